@@ -330,8 +330,38 @@ func exoDocs() []interface{} {
 	var ml map[string][]*hwInner
 	_ = json.Unmarshal([]byte(`{"x":[{"Name":"a"},null],"y":[]}`), &ml)
 	// (appended: the corpus refers to the documents above by index)
+	var nilInner *hwInner
+	chains := exoChains{Owner: &nilInner, Recs: []**hwInner{&nilInner, &nilInner}, Deep: nil}
 	named := map[string]interface{}{"l": exoList{3.0, 1.0, 2.0}, "m": exoMap{"a": 1.0, "b": exoList{"x"}}, "s": exoStrings{"b", "a"}, "n": []interface{}{exoList{1.0}, exoList{}}}
-	return []interface{}{d, &d, m, sm, arr, &arr, num, ml, json.Number("7"), json.RawMessage(`[1]`), []map[exoColor]int{m, nil}, named, exoList{exoMap{"k": 2.0}, exoMap{"k": 1.0}}}
+	return []interface{}{d, &d, m, sm, arr, &arr, num, ml, json.Number("7"), json.RawMessage(`[1]`), []map[exoColor]int{m, nil}, named, exoList{exoMap{"k": 2.0}, exoMap{"k": 1.0}},
+		// pointers to nil pointers (a lookup that "allocates on the way", as decoders do, would write here)
+		chains, &chains, &nilInner,
+		// two distinct types with one printed name (harness.exoT): anything keyed by the name confuses them
+		exoLocalA(), exoLocalB(), exoLocalA()}
+}
+
+type exoChains struct {
+	Owner **hwInner
+	Recs  []**hwInner
+	Deep  ***hwInner
+}
+
+func exoLocalA() interface{} {
+	type exoT struct {
+		A int
+		B string
+		C []string
+	}
+	return exoT{A: 1, B: "b", C: []string{"c"}}
+}
+
+func exoLocalB() interface{} {
+	type exoT struct {
+		C       []string
+		X, Y, Z float64
+		B       string
+	}
+	return &exoT{C: []string{"c2"}, B: "b2"}
 }
 
 // named container types, as document libraries define them (bson.A, bson.M, gin.H, ...)
@@ -339,7 +369,7 @@ type exoList []interface{}
 type exoMap map[string]interface{}
 type exoStrings []string
 
-var exoExprs = []string{"length(l)", "reverse(l)", "sort_by(l, &@)", "max_by(l, &@)", "min_by(@, &k)", "sort_by(@, &k)", "map(&@, l)", "contains(l, `1`)", "not_null(l)", "to_array(l)", "to_array(m)", "sort(l)", "sort(s)", "join(',', s)", "merge(m, m)", "keys(m)", "values(m)", "m.b", "m.b[0]", "l[0]", "l[1:]", "l[*]", "l[]", "n[]", "n[*][0]", "l[?@ > `1`]", "m.*", "length(m)", "reverse(s)", "max(l)", "sum(l)", "avg(l)", "to_string(l)", "to_string(m)", "type(l)", "type(m)", "l == l", "[l, m]", "{a: l}", "l | [0]", "abs(l[0])", "reverse(@)", "length(n)", "map(&length(@), n)",
+var exoExprs = []string{"Owner.Name", "Owner", "Recs[*].Name", "Recs[0].Name", "Recs[0]", "Deep.Name", "Name", "Tags[0]", "[Owner.Name, Recs[1].Tags]", "Owner.Name || Recs[0].Name", "b", "c", "c[0]", "[a, b, c]", "x", "z", "length(l)", "reverse(l)", "sort_by(l, &@)", "max_by(l, &@)", "min_by(@, &k)", "sort_by(@, &k)", "map(&@, l)", "contains(l, `1`)", "not_null(l)", "to_array(l)", "to_array(m)", "sort(l)", "sort(s)", "join(',', s)", "merge(m, m)", "keys(m)", "values(m)", "m.b", "m.b[0]", "l[0]", "l[1:]", "l[*]", "l[]", "n[]", "n[*][0]", "l[?@ > `1`]", "m.*", "length(m)", "reverse(s)", "max(l)", "sum(l)", "avg(l)", "to_string(l)", "to_string(m)", "type(l)", "type(m)", "l == l", "[l, m]", "{a: l}", "l | [0]", "abs(l[0])", "reverse(@)", "length(n)", "map(&length(@), n)",
 	"Colors.red", "colors.red", "red", "blue", "a", "x", "x[0]", "x[0].Name", "StrMap.a", "Lists.x", "Lists.x[0]", "sort(Lists.x)", "Arr[0]", "Arr[*]", "Arr[1:]", "Arr[]", "length(Arr)", "Num", "abs(Num)", "Raw.a", "PP.Name", "PP.Tags[0]", "Any.a", "Any.a[1]",
 	"keys(Colors)", "values(StrMap)", "*", "Colors.*", "Nested.red.k.Name", "Nested.*.*.Name", "Nested.red", "Empty.red", "keys(Empty)", "U8[0]", "length(U8)", "abs(F32)", "abs(I)", "abs(U)", "I > `1`", "I == `3`", "to_string(@)", "to_string(Colors)", "length(@)", "keys(@)", "values(@)",
 	"[0]", "[*]", "[]", "[1:]", "[-1]", "[::-1]", "@ == @", "sort(Arr)", "sum(Arr)", "avg(Arr)", "max(Arr)", "max(U8)", "merge(StrMap, Colors)", "merge(@, @)", "type(Colors)", "type(Arr)", "type(Num)", "type(@)", "map(&@, Arr)", "reverse(Arr)", "reverse(@)", "join(',', Arr)", "contains(Arr, `1`)", "contains(@, `1`)",
@@ -929,4 +959,177 @@ func TestC14NumberTexts(t *testing.T) {
 		run(t, Case{Property: "C14", Kind: "literal", Expr: "`" + pad + text + pad + "`", Doc: ref.Canon(v)})
 		run(t, Case{Property: "C14", Kind: "literal", Expr: "`[" + text + "," + pad + text + "]`", Doc: "[" + ref.Canon(v) + "," + ref.Canon(v) + "]"})
 	})
+}
+
+// ---------------------------------------------------------------------------
+// Round 26 (what generated-input testing tends to miss).
+
+// TestWidthSweep (VERIF_PROP = C03 or C05): n sibling constructs side by side for every n of
+// the depth sweep (a counter that is not restored when a group closes counts width as depth).
+func TestWidthSweep(t *testing.T) {
+	prop := envStr("VERIF_PROP", "C05")
+	kind := map[string]string{"C03": "parse", "C05": "robust"}[prop]
+	if kind == "" {
+		t.Fatalf("HARNESS-ERROR: TestWidthSweep under %s", prop)
+	}
+	type fam struct{ open, item, sep, close string }
+	fams := []fam{{"", "(a)", "||", ""}, {"[", "a", ",", "]"}, {"{", "a:a", ",", "}"}, {"a", ".a", "", ""}, {"not_null(", "a", ",", ")"}, {"", "a", "|", ""}, {"", "!a", "&&", ""}, {"", "(a)", "|", ""}, {"", "[a]", "||", ""}, {"", "{a:a}", "&&", ""},
+		{"", "a[0]", "||", ""}, {"", "abs(a)", "||", ""}, {"a", "[0]", "", ""}, {"a", "[*]", "", ""}, {"", "a[?(a)]", "||", ""}, {"", "(a==a)", "&&", ""}, {"", "`1`", "||", ""}, {"", "'x'", "||", ""}, {"[", "(a)", ",", "]"}, {"", "(((a)))", "||", ""}}
+	n := 0
+	for _, w := range deepSizes() {
+		if w == 0 {
+			continue
+		}
+		for _, f := range fams {
+			items := make([]string, w)
+			for i := range items {
+				items[i] = f.item
+			}
+			e := f.open + strings.Join(items, f.sep) + f.close
+			if len(e) > 60000 {
+				continue // (C05: expressions up to 64 KiB)
+			}
+			run(t, Case{Property: prop, Kind: kind, Expr: e, Doc: `{"a":[{"a":1}]}`, Extra: map[string]interface{}{"cell": "width"}})
+			n++
+		}
+	}
+	st := statsFor(prop)
+	st.mu.Lock()
+	st.Exhaustive[prop+".width-sweep"] = fmt.Sprintf("%d constructs repeated side by side 1..72 and around 96..10001 times (texts up to 60000 bytes): %d expressions", len(fams), n)
+	st.mu.Unlock()
+}
+
+// TestC13ErrorWords: data that reads like the library's own error messages. A compiled
+// expression fails on such a document (the message quotes the value) and must behave on the
+// next document as if nothing had happened.
+func TestC13ErrorWords(t *testing.T) {
+	words := []string{"popularity", "charity", "wrong number of args", "invalid arity", "unknown function: x", "Invalid type for: x", "SyntaxError", "syntax error", "<nil>", "not found", "error", "panic", "%!s(MISSING)", "%v", "index out of range", "unexpected end of JSON input", "Unclosed delimiter", "expected", "null", "true"}
+	exprs := []string{"abs(s)", "join(', ', t)", "sum(l)", "length(n)", "ceil(s)", "keys(s)", "max(l)", "sort(l)", "to_number(s) | abs(s)", "not_null(abs(s))", "[abs(s)]", "s | abs(@)", "abs(s) || `1`", "starts_with(n, s)", "merge(s)", "sort_by(l, &@)", "map(&abs(@), l)", "avg(l)", "reverse(n)", "contains(n, s)"}
+	n := 0
+	for _, e := range exprs {
+		var hist []interface{}
+		hist = append(hist, []interface{}{"compile", e})
+		good := `{"s":-3,"t":["a","b"],"l":[2,1],"n":"ab"}`
+		docs := []string{good}
+		for _, w := range words {
+			q := ref.Canon(w)
+			docs = append(docs, `{"s":`+q+`,"t":[`+q+`,1],"l":[1,`+q+`],"n":7}`, good)
+		}
+		for i, d := range docs {
+			hist = append(hist, []interface{}{"doc", d})
+			hist = append(hist, []interface{}{"search", "0", fmt.Sprint(i)})
+			if i > 0 && i%2 == 0 {
+				hist = append(hist, []interface{}{"search", "0", "0"})
+			}
+		}
+		run(t, Case{Property: "C13", Kind: "history", Extra: map[string]interface{}{"history": hist}})
+		n++
+	}
+	st := statsFor("C13")
+	st.mu.Lock()
+	st.Exhaustive["C13.error-words"] = fmt.Sprintf("%d compiled root-level calls, each searched alternately on a good document and on %d documents whose offending values read like the library's error messages: %d histories", len(exprs), len(words), n)
+	st.mu.Unlock()
+}
+
+// TestUnknownBuiltins (VERIF_PROP = C06 or C12): every name in the library's function table
+// (hook VerifFunctionNames) that the reference model does not know - a function added later -
+// is called with the arrays, objects and strings of a document in every arity 1..3. Nothing is
+// known about what it should return; that it leaves the document alone, and is free of data
+// races when called by several goroutines, is C06's and C12's claim for "every built-in
+// function in every argument position".
+func TestUnknownBuiltins(t *testing.T) {
+	prop := envStr("VERIF_PROP", "C06")
+	known := map[string]bool{}
+	for _, f := range []string{"abs", "avg", "ceil", "contains", "ends_with", "floor", "join", "keys", "length", "map", "max", "max_by", "merge", "min", "min_by", "not_null", "reverse", "sort", "sort_by", "starts_with", "sum", "to_array", "to_number", "to_string", "type", "values"} {
+		known[f] = true
+	}
+	args := []string{"nums", "strs", "people", "o1", "strs[0]", "nums[0]", "&age", "&@", "`1`", "'a'", "nested", "@", "dups", "people[*].name"}
+	doc := `{"people":[{"age":3,"name":"c"},{"age":1,"name":"a"},{"age":3,"name":"b"}],"nums":[3,1,2,1],"strs":["c","a","b","a"],"nested":[[2,1],[0],"x"],"o1":{"k":1,"j":[2,1]},"dups":["a","a","b","c","c","d"]}`
+	n := 0
+	for _, name := range jp.VerifFunctionNames() {
+		if known[name] {
+			continue
+		}
+		var exprs []string
+		for _, a := range args {
+			exprs = append(exprs, name+"("+a+")")
+			for _, b := range args {
+				exprs = append(exprs, name+"("+a+", "+b+")")
+			}
+		}
+		for _, a := range []string{"nums", "strs", "people", "dups"} {
+			exprs = append(exprs, name+"("+a+", `1`, `2`)", name+"("+a+", &@, 'x')", name+"('x', "+a+", "+a+")", "["+name+"("+a+"), "+a+"]", a+" | "+name+"(@)")
+		}
+		for _, e := range exprs {
+			c := Case{Property: prop, Kind: "nomutate", Expr: e, Doc: doc, Extra: map[string]interface{}{"cell": "unknown-builtin"}}
+			if prop == "C12" {
+				c = Case{Property: prop, Kind: "unknown-builtin-concurrent", Expr: e, Doc: doc}
+			}
+			run(t, c)
+			n++
+		}
+	}
+	st := statsFor(prop)
+	st.mu.Lock()
+	st.Exhaustive[prop+".unknown-builtins"] = fmt.Sprintf("functions in the library's table that the reference model does not know: %d calls (0 on a tree with the 26 specified functions only)", n)
+	st.mu.Unlock()
+}
+
+func init() { predicates["unknown-builtin-concurrent"] = predUnknownBuiltinConcurrent }
+
+// predUnknownBuiltinConcurrent: 8 goroutines, one compiled expression, one shared document and
+// a deep reader, under the race detector; afterwards the document is unchanged.
+func predUnknownBuiltinConcurrent(c Case) (r Result) {
+	expr := c.expr()
+	breadcrumb(c)
+	orig := mustJSON(c.Doc)
+	shared := withSpareCapacity(ref.DeepCopy(orig))
+	comp, cerr, pan := libCompile(expr)
+	if cerr != nil || pan != nil {
+		r.Discard = "does-not-compile"
+		return
+	}
+	r.Nontrivial = true
+	var wg sync.WaitGroup
+	start := make(chan struct{})
+	stop := make(chan struct{})
+	for g := 0; g < 8; g++ {
+		wg.Add(1)
+		go func(g int) {
+			defer wg.Done()
+			<-start
+			for i := 0; i < 20; i++ {
+				safely(func() {
+					if g%2 == 0 {
+						_, _ = comp.Search(shared)
+					} else {
+						_, _ = jp.Search(expr, shared)
+					}
+				})
+			}
+		}(g)
+	}
+	var rwg sync.WaitGroup
+	rwg.Add(1)
+	go func() {
+		defer rwg.Done()
+		for {
+			select {
+			case <-stop:
+				return
+			default:
+				_ = deepRead(shared)
+				runtime.Gosched()
+			}
+		}
+	}()
+	close(start)
+	wg.Wait()
+	close(stop)
+	rwg.Wait()
+	if !reflect.DeepEqual(shared, orig) || !tailsIntact(shared) {
+		r.Violation = "concurrent calls of a built-in function modified the shared document"
+		r.Expected, r.Got = ref.Canon(orig), show(shared)
+	}
+	return
 }
